@@ -485,7 +485,7 @@ Qed.
    launched for it.  No reachability hypothesis: arbitrary prior contents, arbitrary
    processes.                                                                          *)
 Definition snolaunch (c : spc) : bool :=
-  match c with SIdle | STest1 | SPid _ | SAdopt _ | STest2 _ _ | SFinal _ | SDead | SStuck => true | _ => false end.
+  match c with STrunc | SWrite | SSpawn => false | _ => true end.
 Lemma sover_nolaunch : forall c, sover c = true -> snolaunch c = true.
 Proof. destruct c; simpl; congruence. Qed.
 
@@ -868,9 +868,9 @@ End GlobalLemmas.
 
 (* ------------------------------------------------------------------ the executable composition is sound *)
 Lemma is_vdone_eq : forall c, is_vdone c = true -> c = SFinal VDone.
-Proof. destruct c as [| | | | | | | | | | | | | |[|]| |]; simpl; congruence. Qed.
+Proof. destruct c as [| | | | | | | | | | | | | | |[|]| |]; simpl; congruence. Qed.
 Lemma is_verror_eq : forall c, is_verror c = true -> c = SFinal VError.
-Proof. destruct c as [| | | | | | | | | | | | | |[|]| |]; simpl; congruence. Qed.
+Proof. destruct c as [| | | | | | | | | | | | | | |[|]| |]; simpl; congruence. Qed.
 
 Lemma gexec_sound : forall deps m g g', gexec deps m g = Some g' -> gstep deps g g'.
 Proof.
@@ -925,28 +925,31 @@ Proof. intros g H j. apply H. Qed.
    Non-vacuity: concrete runs that meet the hypotheses of the theorems
    ================================================================== *)
 Definition tr_sched_launch (s : nat) : list label :=
-  [LSubmit s; LTest1 s; LPid s; LTest2 s; LReady s; LSLock s; LTrunc s; LWrite s; LSpawn s; LCreatePid s; LWritePid s; LSUnlock s].
+  [LSubmit s; LTest1 s; LPid s; LTest2 s; LReady s; LSLock s; LTest3 s; LTrunc s; LWrite s; LSpawn s; LCreatePid s; LWritePid s; LSUnlock s].
 Definition tr_proc_begin (p : nat) : list label := [LExec p; LPLock p; LPTest p; LRmFailed p; LBegin p].
 Definition tr_proc_skip (p : nat) : list label := [LExec p; LPLock p; LPTest p; LRmPid p; LPUnlock p].
 
-(* two schedulers: scheduler 1 passed its tests before scheduler 0 wrote the pid file; process 0
-   is inside the body, scheduler 1 waits for the lock *)
+(* two schedulers: scheduler 1 passed its tests before scheduler 0 wrote the pid file and took the job lock
+   right after scheduler 0 released it (marker still absent): two processes; process 0 is inside the body,
+   process 1 waits for the lock *)
 Definition tr_two_scheds : list label :=
-  [LSubmit 1; LTest1 1; LPid 1; LTest2 1; LReady 1] ++ tr_sched_launch 0 ++ tr_proc_begin 0.
+  [LSubmit 1; LTest1 1; LPid 1; LTest2 1; LReady 1] ++ tr_sched_launch 0 ++
+  [LSLock 1; LTest3 1; LTrunc 1; LWrite 1; LSpawn 1; LCreatePid 1; LWritePid 1; LSUnlock 1] ++
+  tr_proc_begin 0 ++ [LExec 1].
 Definition st_two_scheds : jobdir :=
   match run_labels tr_two_scheds fresh with Some st => st | None => fresh end.
 Example body_mutex_nonvacuous :
   reachable st_two_scheds /\ body_active st_two_scheds = 1 /\ procs st_two_scheds 0 = PBody /\
-  scheds st_two_scheds 1 = SLock /\ lstep (LSLock 1) st_two_scheds = None.
+  procs st_two_scheds 1 = PLockW /\ lstep (LPLock 1) st_two_scheds = None /\ launches st_two_scheds = 2.
 Proof.
   split; [|vm_compute; repeat split].
   exists fresh, tr_two_scheds. split; [apply fresh_initial|]. apply run_labels_steps. vm_compute. reflexivity.
 Qed.
 
-(* after the success: scheduler 1 gets the lock, launches process 1, which finds the marker and
-   does not run the body; a third instance finds the marker and launches nothing *)
+(* after the success: process 1 gets the lock, finds the marker and does not run the body; a third instance
+   finds the marker and launches nothing *)
 Definition tr_after_success : list label :=
-  [LSLock 1; LTrunc 1; LWrite 1; LSpawn 1; LCreatePid 1; LWritePid 1; LSUnlock 1] ++ tr_proc_skip 1 ++
+  [LPLock 1; LPTest 1; LRmPid 1; LPUnlock 1] ++
   [LWaitEnd 1; LWaitEnd 0; LSubmit 2; LTest1 2; LPid 2; LTest2 2].
 Definition st_success : jobdir :=
   match run_labels [LEnd 0 true; LTouch 0 false] st_two_scheds with Some st => st | None => fresh end.
@@ -977,19 +980,18 @@ Qed.
 
 (* C11, chain of two jobs.  Job 0: the scheduler is killed between Popen and the write of the pid
    file; the orphan process takes the lock and runs the body; the experiment is started again,
-   finds neither marker nor pid file, blocks on the lock, then launches process 1, which finds the
-   marker and skips.  Job 1 is launched only after that.                                        *)
+   finds neither marker nor pid file, blocks on the lock, gets it when the orphan has finished, finds the
+   marker under the lock and launches nothing.  Job 1 is launched only after that.                                        *)
 Definition on (j : nat) (tr : list label) : list gmove := map (GOn j) tr.
 Definition mv_chain2_crash : list gmove :=
-  on 0 [LSubmit 0; LTest1 0; LPid 0; LTest2 0; LReady 0; LSLock 0; LTrunc 0; LWrite 0; LSpawn 0] ++
+  on 0 [LSubmit 0; LTest1 0; LPid 0; LTest2 0; LReady 0; LSLock 0; LTest3 0; LTrunc 0; LWrite 0; LSpawn 0] ++
   on 1 [LSubmit 0; LTest1 0; LPid 0; LTest2 0] ++
   [GDie 0] ++
   on 0 (tr_proc_begin 0) ++
   on 0 [LSubmit 0; LTest1 0; LPid 0; LTest2 0; LReady 0] ++
   on 1 [LSubmit 0; LTest1 0; LPid 0; LTest2 0] ++
-  on 0 [LEnd 0 true; LTouch 0 false; LSLock 0; LTrunc 0; LWrite 0; LSpawn 0; LCreatePid 0; LWritePid 0; LSUnlock 0] ++
-  on 0 (tr_proc_skip 1) ++ on 0 [LWaitEnd 0] ++
-  on 1 ([LReady 0; LSLock 0; LTrunc 0; LWrite 0; LSpawn 0; LCreatePid 0; LWritePid 0; LSUnlock 0] ++ tr_proc_begin 0 ++
+  on 0 [LEnd 0 true; LTouch 0 false; LSLock 0; LTest3 0] ++
+  on 1 ([LReady 0; LSLock 0; LTest3 0; LTrunc 0; LWrite 0; LSpawn 0; LCreatePid 0; LWritePid 0; LSUnlock 0] ++ tr_proc_begin 0 ++
         [LEnd 0 true; LTouch 0 true; LRmPid 0; LPUnlock 0; LWaitEnd 0]).
 Definition g_chain2_crash : gstate :=
   match grun deps_chain2 mv_chain2_crash gfresh0 with Some g => g | None => gfresh0 end.
@@ -999,7 +1001,7 @@ Proof. vm_compute. reflexivity. Qed.
 
 Example final_nonvacuous_chain2 :
   greachable1 deps_chain2 g_chain2_crash /\ gfinal 2 g_chain2_crash /\ no_abort g_chain2_crash /\
-  launches (jd g_chain2_crash 0) = 2 /\ body_runs (jd g_chain2_crash 0) = 1 /\
+  launches (jd g_chain2_crash 0) = 1 /\ body_runs (jd g_chain2_crash 0) = 1 /\
   results 2 g_chain2_crash = [(Some VDone, true); (Some VDone, true)].
 Proof.
   split; [|split; [|split]].
@@ -1138,6 +1140,7 @@ Qed.
 Lemma sched_locked_can_step : forall st s, slocked (scheds st s) = true -> can_progress st.
 Proof.
   intros st s H. unfold can_progress. destruct (scheds st s) eqn:E; simpl in H; try discriminate.
+  - exists (LTest3 s). unfold lstep, lstep_with. rewrite E. destruct (done st); eexists; split; reflexivity.
   - exists (LTrunc s). eexists. split; [reflexivity|]. unfold lstep, lstep_with. rewrite E. reflexivity.
   - exists (LWrite s). eexists. split; [reflexivity|]. unfold lstep, lstep_with. rewrite E. reflexivity.
   - exists (LSpawn s). eexists. split; [reflexivity|]. unfold lstep, lstep_with. rewrite E. reflexivity.
@@ -1191,6 +1194,9 @@ Qed.
 Definition tr_empty_pid : list label :=
   [LSubmit 0; LTest1 0; LPid 0; LTest2 0; LReady 0; LSLock 0; LTrunc 0; LWrite 0; LSpawn 0; LCreatePid 0; LCrash 0] ++
   tr_proc_begin 0 ++ [LEnd 0 true; LTouch 0 false] ++ [LSubmit 0; LTest1 0; LPid 0].
+Definition tr_empty_pid_ok : list label :=
+  [LSubmit 0; LTest1 0; LPid 0; LTest2 0; LReady 0; LSLock 0; LTest3 0; LTrunc 0; LWrite 0; LSpawn 0; LCreatePid 0; LCrash 0] ++
+  tr_proc_begin 0 ++ [LEnd 0 true; LTouch 0 false] ++ [LSubmit 0; LTest1 0; LPid 0; LTest2 0].
 Lemma empty_pid_stuck_refuted : exists st,
   run_labels_prefix tr_empty_pid fresh = Some st /\ Forall lbl_single tr_empty_pid /\
   done st = true /\ body_runs st = 1 /\ (forall p, alive (procs st p) = false) /\ lock st = None /\
@@ -1200,23 +1206,24 @@ Proof.
   eexists. split; [vm_compute; reflexivity|]. split; [repeat constructor|].
   repeat split.
   - intros p. destruct p as [|p]; reflexivity.
-  - intros l Hl. destruct l as [s|s|s|s|s|s|s|s|s|s|s|s|s|s|s|s|s|p|p|p|p|p|p ok|p c|p|p|p|p]; simpl in Hl; try discriminate;
+  - intros l Hl. destruct l as [s|s|s|s|s|s|s|s|s|s|s|s|s|s|s|s|s|s|p|p|p|p|p|p ok|p c|p|p|p|p]; simpl in Hl; try discriminate;
     try (destruct s as [|s]; reflexivity); try (destruct p as [|p]; reflexivity).
 Qed.
 (* the same run with the repaired aio_process goes on: the marker is found *)
 Example empty_pid_repaired : exists st,
-  run_labels (tr_empty_pid ++ [LTest2 0]) fresh = Some st /\ scheds st 0 = SFinal VDone /\ body_runs st = 1.
+  run_labels tr_empty_pid_ok fresh = Some st /\ scheds st 0 = SFinal VDone /\ body_runs st = 1.
 Proof. eexists. split; [vm_compute; reflexivity|]. split; reflexivity. Qed.
 Example no_deadlock_nonvacuous : reachable st_two_scheds /\ sbusy (scheds st_two_scheds 1) = true /\
-  lstep (LSLock 1) st_two_scheds = None.
+  lstep (LPLock 1) st_two_scheds = None.
 Proof. split; [apply body_mutex_nonvacuous|split; vm_compute; reflexivity]. Qed.
 
 (* ==================================================================
    What C11 owes to the launcher: with the pinned launcher (children in the scheduler's process group)
    a Ctrl-C of the experiment kills the running job; the experiment run again runs the body a second time
    ================================================================== *)
+Definition mv_group_signal_mid : list gmove := on 0 (tr_sched_launch 0 ++ tr_proc_begin 0) ++ [GDie 0].
 Definition mv_group_signal : list gmove :=
-  on 0 (tr_sched_launch 0 ++ tr_proc_begin 0) ++ [GDie 0] ++
+  mv_group_signal_mid ++
   on 0 (tr_sched_launch 0 ++ tr_proc_begin 1 ++ [LEnd 1 true; LTouch 1 true; LRmPid 1; LPUnlock 1; LWaitEnd 0]).
 (* a gstate is never read back from the VM (its normal form under the binder of jd is huge): only first-order
    observations are computed *)
@@ -1229,7 +1236,7 @@ Lemma grun_group_some : forall deps ms, gok_group deps ms = true ->
 Proof. intros deps ms H. unfold gok_group, grun_group_or in *. destruct (grun_group deps ms gfresh0); [reflexivity|discriminate]. Qed.
 
 Lemma group_signal_refuted : exists g gmid,
-  grun_group deps_one (firstn 18 mv_group_signal) gfresh0 = Some gmid /\
+  grun_group deps_one mv_group_signal_mid gfresh0 = Some gmid /\
   grun_group deps_one mv_group_signal gfresh0 = Some g /\
   forallb gmove_single mv_group_signal = true /\ forallb quiet_move mv_group_signal = true /\
   (* right after the death of the scheduler: the job process is gone, a failure marker is there *)
@@ -1237,7 +1244,7 @@ Lemma group_signal_refuted : exists g gmid,
   (* final state of the second run: DONE, but the body ran twice *)
   gfinal 1 g /\ scheds (jd g 0) 0 = SFinal VDone /\ done (jd g 0) = true /\ body_runs (jd g 0) = 2.
 Proof.
-  exists (grun_group_or deps_one mv_group_signal), (grun_group_or deps_one (firstn 18 mv_group_signal)).
+  exists (grun_group_or deps_one mv_group_signal), (grun_group_or deps_one mv_group_signal_mid).
   split; [apply grun_group_some; vm_compute; reflexivity|].
   split; [apply grun_group_some; vm_compute; reflexivity|].
   split; [vm_compute; reflexivity|]. split; [vm_compute; reflexivity|].
@@ -1284,7 +1291,7 @@ Qed.
    job that no later run can see; the next run goes down the launch path and will start a second process
    (which queues behind the lock and skips the body) *)
 Definition mv_orphan_run : list gmove :=
-  on 0 [LSubmit 0; LTest1 0; LPid 0; LTest2 0; LReady 0; LSLock 0; LTrunc 0; LWrite 0; LSpawn 0] ++ [GDie 0] ++
+  on 0 [LSubmit 0; LTest1 0; LPid 0; LTest2 0; LReady 0; LSLock 0; LTest3 0; LTrunc 0; LWrite 0; LSpawn 0] ++ [GDie 0] ++
   on 0 (tr_proc_begin 0) ++ on 0 [LSubmit 0; LTest1 0; LPid 0; LTest2 0; LReady 0].
 Lemma orphan_not_adopted : exists g,
   greachable1 deps_one g /\ procs (jd g 0) 0 = PBody /\ pidf (jd g 0) = PFNone /\
@@ -1382,23 +1389,40 @@ Proof. eexists. split; [vm_compute; reflexivity|]. repeat split. Qed.
 (* the same schedule with the repaired code: the process reads a complete script *)
 Definition tr_truncated_ok : list label :=
   [LSubmit 0; LTest1 0; LPid 0; LTest2 0; LReady 0; LSubmit 1; LTest1 1; LPid 1; LTest2 1; LReady 1] ++
-  [LSLock 0; LTrunc 0; LWrite 0; LSpawn 0; LCreatePid 0; LWritePid 0; LSUnlock 0] ++
-  [LSLock 1; LTrunc 1; LExec 0].
+  [LSLock 0; LTest3 0; LTrunc 0; LWrite 0; LSpawn 0; LCreatePid 0; LWritePid 0; LSUnlock 0] ++
+  [LSLock 1; LTest3 1; LTrunc 1; LExec 0].
 Example truncated_script_repaired : exists st,
   run_labels tr_truncated_ok fresh = Some st /\ procs st 0 = PLockW /\ scheds st 0 = SWait 0.
 Proof. eexists. split; [vm_compute; reflexivity|]. split; reflexivity. Qed.
 
-(* what is NOT true, and why C05_no_rerun_after_success is the statement that matters: a scheduler that made
-   both marker tests before the marker appeared still launches a process after it exists (aio_start does not
-   test the marker again under the job lock); the process finds the marker under the lock and skips the body *)
-Lemma launch_after_marker : exists st st',
-  reachable st /\ done st = true /\ scheds st 1 = SLock /\
-  steps st ([LSLock 1; LTrunc 1; LWrite 1; LSpawn 1; LCreatePid 1; LWritePid 1; LSUnlock 1] ++ tr_proc_skip 1 ++ [LWaitEnd 1]) st' /\
+(* the pinned aio_start did not test the marker again under the job lock: a scheduler that made both marker tests
+   before the marker appeared and then waited for the lock launched a process after it existed (launches 1 -> 2);
+   the process found the marker under the lock and skipped the body (body_runs stays 1) - but every launch
+   truncates <name>.out / <name>.err, i.e. the output of the run that succeeded was lost                       *)
+Definition tr_lam_1 : list label :=
+  [LSubmit 1; LTest1 1; LPid 1; LTest2 1; LReady 1] ++
+  [LSubmit 0; LTest1 0; LPid 0; LTest2 0; LReady 0; LSLock 0; LTrunc 0; LWrite 0; LSpawn 0; LCreatePid 0; LWritePid 0; LSUnlock 0] ++
+  tr_proc_begin 0 ++ [LEnd 0 true; LTouch 0 true; LRmPid 0; LPUnlock 0].
+Definition tr_lam_2 : list label :=
+  [LSLock 1; LTrunc 1; LWrite 1; LSpawn 1; LCreatePid 1; LWritePid 1; LSUnlock 1] ++ tr_proc_skip 1 ++ [LWaitEnd 1].
+Lemma launch_after_marker_refuted : exists st st',
+  run_labels_prefix tr_lam_1 fresh = Some st /\ done st = true /\ scheds st 1 = SLock /\
+  run_labels_prefix tr_lam_2 st = Some st' /\
   launches st = 1 /\ launches st' = 2 /\ body_runs st = 1 /\ body_runs st' = 1 /\ scheds st' 1 = SFinal VDone.
 Proof.
-  exists st_success. eexists. split; [apply no_rerun_nonvacuous|].
-  split; [vm_compute; reflexivity|]. split; [vm_compute; reflexivity|].
-  split; [apply run_labels_steps; vm_compute; reflexivity|]. vm_compute. repeat split.
+  eexists. eexists. split; [vm_compute; reflexivity|]. split; [reflexivity|]. split; [reflexivity|].
+  split; [vm_compute; reflexivity|]. repeat split.
+Qed.
+(* the repaired aio_start: the same scheduler finds the marker under the lock and launches nothing *)
+Definition tr_lam_1_ok : list label :=
+  [LSubmit 1; LTest1 1; LPid 1; LTest2 1; LReady 1] ++ tr_sched_launch 0 ++
+  tr_proc_begin 0 ++ [LEnd 0 true; LTouch 0 true; LRmPid 0; LPUnlock 0].
+Example launch_after_marker_repaired : exists st st',
+  run_labels tr_lam_1_ok fresh = Some st /\ done st = true /\ scheds st 1 = SLock /\
+  run_labels [LSLock 1; LTest3 1] st = Some st' /\ scheds st' 1 = SFinal VDone /\ launches st' = 1 /\ lock st' = None.
+Proof.
+  eexists. eexists. split; [vm_compute; reflexivity|]. split; [reflexivity|]. split; [reflexivity|].
+  split; [vm_compute; reflexivity|]. repeat split.
 Qed.
 
 (* ==================================================================
@@ -1413,8 +1437,8 @@ Definition prank (c : ppc) : nat :=
 Definition srank (c : spc) : nat :=
   match c with
   | SFinal _ => 0 | SWait _ => 1 | SUnlock _ => 2 | SWritePid _ => 3 | SCreatePid _ => 4 | SSpawn => 5 | SWrite => 6
-  | STrunc => 7 | SLock => 8 | SReady => 9 | STest2 _ _ => 10 | SAdopt _ => 11 | SPid _ => 12 | STest1 => 13
-  | SIdle | SDead | SStuck => 14
+  | STrunc => 7 | STest3 => 8 | SLock => 9 | SReady => 10 | STest2 _ _ => 11 | SAdopt _ => 12 | SPid _ => 13 | STest1 => 14
+  | SIdle | SDead | SStuck => 15
   end.
 Fixpoint psumf (f : nat -> ppc) (n : nat) : nat :=
   match n with 0 => 0 | S k => psumf f k + prank (f k) end.
@@ -1542,6 +1566,9 @@ Proof.
     + apply (holder_advances st a HL Ha El). rewrite E. reflexivity.
     + exists (LSLock 0). eexists. split; [reflexivity|]. split; [unfold lstep, lstep_with; rewrite E, El; reflexivity|].
       unfold mu; simp; rewrite upd_same, E; simpl; lia.
+  - exists (LTest3 0). unfold lstep, lstep_with. rewrite E.
+    destruct (done st); eexists; (split; [reflexivity|]); (split; [reflexivity|]);
+    unfold mu; simp; rewrite upd_same, E; simpl; lia.
   - sched_adv (LTrunc 0) E.
   - sched_adv (LWrite 0) E.
   - exists (LSpawn 0). eexists. split; [reflexivity|]. split; [unfold lstep, lstep_with; rewrite E; reflexivity|].
@@ -1672,4 +1699,20 @@ Proof.
   - intros j. destruct j as [|j]; vm_compute; reflexivity.
   - vm_compute. reflexivity.
   - vm_compute. reflexivity.
+Qed.
+
+(* the pinned aio_start, one scheduler slot: killed between Popen and the pid write; the job runs as an orphan and
+   succeeds while the next run waits for the job lock; that run then launches a second process although the marker
+   exists (launches = 2, Popen in a state with done = true): the no-op launch that truncates <name>.out/.err *)
+Definition tr_noop_relaunch : list label :=
+  [LSubmit 0; LTest1 0; LPid 0; LTest2 0; LReady 0; LSLock 0; LTrunc 0; LWrite 0; LSpawn 0; LCrash 0] ++
+  tr_proc_begin 0 ++ [LSubmit 0; LTest1 0; LPid 0; LTest2 0; LReady 0] ++ [LEnd 0 true; LTouch 0 false] ++
+  [LSLock 0; LTrunc 0; LWrite 0].
+Lemma noop_relaunch_refuted : exists st st',
+  run_labels_prefix tr_noop_relaunch fresh = Some st /\ Forall lbl_single tr_noop_relaunch /\
+  done st = true /\ body_runs st = 1 /\ launches st = 1 /\
+  lstep_prefix (LSpawn 0) st = Some st' /\ launches st' = 2.
+Proof.
+  eexists. eexists. split; [vm_compute; reflexivity|]. split; [repeat constructor|].
+  split; [reflexivity|]. split; [reflexivity|]. split; [reflexivity|]. split; [vm_compute; reflexivity|]. reflexivity.
 Qed.
